@@ -541,4 +541,511 @@ example : (NTM.setRow exNTM 2 []).validate = .error (.lib .finalStateError) := b
 example : (NTM.setRow exNTM 2 [(0, [(1, 9, "R")])]).validate = .error (.lib .finalStateError) := by decide
 example : ({ exNTM with finals := [7, 2] } : NTM Nat Nat).validate = .error (.lib .invalidStateError) := by decide
 
+/-! ## PDA: unknown input symbol -/
+
+/-- DPDA / **unknown input symbol**: in a valid DPDA, `transitions[q][a][g] = r` with `a` neither an
+input symbol nor `""` → `InvalidSymbolError`, *provided* `g` has no λ-move in the row of `q`:
+otherwise the λ-entry, which comes earlier in the row, is found to have a sibling on `g` and
+`NondeterminismError` is raised first (the determinism test of the code runs over the whole row,
+foreign entries included).  `g` itself may be foreign (same class).  (`hg` speaks about every row
+keyed `q`: in a Python dict there is one.) -/
+theorem C19_dpda_corrupt_input_symbol (isEmptyStr : γ → Bool) (d : DPDA σ α γ)
+    (wf : d.WFDef isEmptyStr) (kv : σ × List (Option α × List (γ × (σ × List γ)))) (hkv : kv ∈ d.trans)
+    (a : α) (ha : a ∉ d.syms) (g : γ)
+    (hg : ∀ kv0 ∈ d.trans, kv0.1 = kv.1 → g ∉ akeys (DPDA.lamRow kv0.2)) (r : σ × List γ) :
+    (DPDA.setMove d kv.1 (some a) g r).validateDef isEmptyStr = .error (.lib .invalidSymbolError) := by
+  show (pdaValidateReserved isEmptyStr d.stackSyms).andThen _ = _
+  rw [wf.reservedOk, Res.ok_andThen]
+  have hrow : (kv.1, rowSetMove (some a) g r kv.2) ∈ (DPDA.setMove d kv.1 (some a) g r).trans :=
+    editRow_mem kv.1 (rowSetMove (some a) g r) d.trans kv hkv rfl
+  have hv : DPDA.rules.Violates (DPDA.setMove d kv.1 (some a) g r) .unknownInputSymbol :=
+    ⟨_, hrow, _, rowSetMove_mem_self (some a) g r kv.2, a, rfl, ha⟩
+  refine DPDA.rules_correct.corrupt_raises _ .unknownInputSymbol hv ?_
+  intro r' hv'
+  cases r'
+  case nondeterministic =>
+    -- every row is still deterministic
+    exfalso
+    obtain ⟨kv', hkv', hnd⟩ := hv'
+    apply hnd
+    obtain ⟨kv0, hkv0, _, hshape⟩ := mem_editRow kv.1 (rowSetMove (some a) g r) d.trans kv' hkv'
+    rcases hshape with rfl | ⟨hk, hshape⟩
+    · exact wf.det kv' hkv0
+    · rw [hshape]
+      intro en hen b hb x hx
+      rw [DPDA.lamRow_rowSetMove_some]
+      intro hxl
+      rcases mem_rowSetMove (some a) g r kv0.2 en hen with rfl | hen0
+      · rcases rowSetMove_new_keys (some a) g r kv0.2 x hx with rfl | ⟨m, hm, hxm⟩
+        · exact hg kv0 hkv0 hk hxl
+        · exact wf.det kv0 hkv0 _ hm a rfl x hxm hxl
+      · exact wf.det kv0 hkv0 en hen0 b hb x hx hxl
+  all_goals first
+    | exact Or.inl rfl
+    | (right; rw [DPDA.rules_stage]; decide)
+
+/-- NPDA / **unknown input symbol**: `transitions[q][a][g] = rs` with `a` neither an input symbol nor
+`""` → `InvalidSymbolError` (no determinism test in this class; `g` may be foreign: same class). -/
+theorem C19_npda_corrupt_input_symbol (isEmptyStr : γ → Bool) (d : NPDA σ α γ)
+    (wf : d.WFDef isEmptyStr) (kv : σ × List (Option α × List (γ × List (σ × List γ)))) (hkv : kv ∈ d.trans)
+    (a : α) (ha : a ∉ d.syms) (g : γ) (rs : List (σ × List γ)) :
+    (NPDA.setMove d kv.1 (some a) g rs).validateDef isEmptyStr = .error (.lib .invalidSymbolError) := by
+  show (pdaValidateReserved isEmptyStr d.stackSyms).andThen _ = _
+  rw [wf.reservedOk, Res.ok_andThen]
+  have hrow : (kv.1, rowSetMove (some a) g rs kv.2) ∈ (NPDA.setMove d kv.1 (some a) g rs).trans :=
+    editRow_mem kv.1 (rowSetMove (some a) g rs) d.trans kv hkv rfl
+  have hv : NPDA.rules.Violates (NPDA.setMove d kv.1 (some a) g rs) .unknownInputSymbol :=
+    ⟨_, hrow, _, rowSetMove_mem_self (some a) g rs kv.2, a, rfl, ha⟩
+  refine NPDA.rules_correct.corrupt_raises _ .unknownInputSymbol hv ?_
+  intro r' hv'
+  cases r' <;> first
+    | exact Or.inl rfl
+    | exact (hv' : False).elim
+    | (right; rw [NPDA.rules_stage]; decide)
+
+def exNPDA : NPDA Nat Nat Nat :=
+  { states := [0, 1], syms := [0], stackSyms := [0, 1],
+    trans := [(0, [(some 0, [(0, [(0, [1, 0]), (1, [])])]), (none, [(1, [(1, [])])])])],
+    init := 0, initStack := 0, finals := [1], mode := "final_state" }
+
+example : exNPDA.validateDef (· == 77) = .ok () := by decide
+example : (NPDA.setMove exNPDA 0 (some 5) 1 [(1, [])]).validateDef (· == 77) =
+    .error (.lib .invalidSymbolError) := by decide
+/-- stack symbol 0 has no λ-move in the row of state 0 of `exDPDA` … -/
+example : (DPDA.setMove exDPDA 0 (some 5) 0 (1, [])).validateDef (· == 77) =
+    .error (.lib .invalidSymbolError) := by decide
+/-- … stack symbol 1 has one: the hypothesis `hg` is needed (the determinism test wins). -/
+example : (DPDA.setMove exDPDA 0 (some 5) 1 (1, [])).validateDef (· == 77) =
+    .error (.lib .nondeterminismError) := by decide
+
+/-! ## Turing machines: Σ ⊊ Γ, rows keyed by non-states, the row of the initial state -/
+
+/-- DTM / **input symbols not a proper subset of the tape symbols** → `MissingSymbolError`, for every
+definition, valid or not: `_read_input_symbol_subset` is the first check. -/
+theorem C19_dtm_corrupt_input_symbols (d : DTM σ γ) (h : ¬ ProperSubset d.syms d.tapeSyms) :
+    d.validate = .error (.lib .missingSymbolError) := by
+  refine DTM.rules_correct.corrupt_raises _ .inputNotProperSubset h ?_
+  intro r' _
+  cases r' <;> first | exact Or.inl rfl | (right; rw [DTM.rules_stage]; decide)
+
+theorem C19_ntm_corrupt_input_symbols (d : NTM σ γ) (h : ¬ ProperSubset d.syms d.tapeSyms) :
+    d.validate = .error (.lib .missingSymbolError) := by
+  refine NTM.rules_correct.corrupt_raises _ .inputNotProperSubset h ?_
+  intro r' _
+  cases r' <;> first | exact Or.inl rfl | (right; rw [NTM.rules_stage]; decide)
+
+theorem C19_mntm_corrupt_input_symbols (d : MNTM σ γ) (h : ¬ ProperSubset d.syms d.tapeSyms) :
+    d.validate = .error (.lib .missingSymbolError) := by
+  refine MNTM.rules_correct.corrupt_raises _ .inputNotProperSubset h ?_
+  intro r' _
+  cases r' <;> first | exact Or.inl rfl | (right; rw [MNTM.rules_stage]; decide)
+
+/-- an input symbol that is not a tape symbol breaks Σ ⊆ Γ -/
+private theorem not_proper_of_foreign (syms tapeSyms : List γ) (a : γ) (ha : a ∉ tapeSyms) :
+    ¬ ProperSubset (a :: syms) tapeSyms := fun h => ha (h.1 a (by simp))
+
+/-- Σ = Γ is not a *proper* subset -/
+private theorem not_proper_self (tapeSyms : List γ) : ¬ ProperSubset tapeSyms tapeSyms :=
+  fun ⟨_, s, hs, hns⟩ => hns hs
+
+/-- DTM / an input symbol added that is not a tape symbol → `MissingSymbolError`. -/
+theorem C19_dtm_corrupt_input_symbol_foreign (d : DTM σ γ) (a : γ) (ha : a ∉ d.tapeSyms) :
+    ({ d with syms := a :: d.syms } : DTM σ γ).validate = .error (.lib .missingSymbolError) :=
+  C19_dtm_corrupt_input_symbols _ (not_proper_of_foreign d.syms d.tapeSyms a ha)
+
+/-- DTM / every tape symbol (the blank included) made an input symbol, Σ = Γ → `MissingSymbolError`. -/
+theorem C19_dtm_corrupt_input_symbols_all (d : DTM σ γ) :
+    ({ d with syms := d.tapeSyms } : DTM σ γ).validate = .error (.lib .missingSymbolError) :=
+  C19_dtm_corrupt_input_symbols _ (not_proper_self d.tapeSyms)
+
+theorem C19_ntm_corrupt_input_symbol_foreign (d : NTM σ γ) (a : γ) (ha : a ∉ d.tapeSyms) :
+    ({ d with syms := a :: d.syms } : NTM σ γ).validate = .error (.lib .missingSymbolError) :=
+  C19_ntm_corrupt_input_symbols _ (not_proper_of_foreign d.syms d.tapeSyms a ha)
+
+theorem C19_ntm_corrupt_input_symbols_all (d : NTM σ γ) :
+    ({ d with syms := d.tapeSyms } : NTM σ γ).validate = .error (.lib .missingSymbolError) :=
+  C19_ntm_corrupt_input_symbols _ (not_proper_self d.tapeSyms)
+
+theorem C19_mntm_corrupt_input_symbol_foreign (d : MNTM σ γ) (a : γ) (ha : a ∉ d.tapeSyms) :
+    ({ d with syms := a :: d.syms } : MNTM σ γ).validate = .error (.lib .missingSymbolError) :=
+  C19_mntm_corrupt_input_symbols _ (not_proper_of_foreign d.syms d.tapeSyms a ha)
+
+theorem C19_mntm_corrupt_input_symbols_all (d : MNTM σ γ) :
+    ({ d with syms := d.tapeSyms } : MNTM σ γ).validate = .error (.lib .missingSymbolError) :=
+  C19_mntm_corrupt_input_symbols _ (not_proper_self d.tapeSyms)
+
+/-- DTM / **row keyed by a non-state**: in a valid DTM, `transitions[x] = row` with `x` not a state
+→ `InvalidStateError`, *whatever the row contains*: the new key goes to the end of the dict, every
+older row passes, and `_validate_transition_state` is the first test of a row.  (Proved on the
+order of the checks directly, not through the rule system, which puts all row rules in one stage.) -/
+theorem C19_dtm_corrupt_row_key (d : DTM σ γ) (wf : d.WF) (x : σ) (hx : x ∉ d.states)
+    (row : List (γ × TMResult σ γ)) :
+    (DTM.setRow d x row).validate = .error (.lib .invalidStateError) := by
+  have hxk : x ∉ akeys d.trans := by
+    intro h
+    obtain ⟨kv, hkv, rfl⟩ := List.mem_map.mp h
+    exact hx (wf.keysOk kv hkv)
+  have hok := (DTM.validate_eq_ok d).mpr wf
+  unfold DTM.validate at hok
+  obtain ⟨h1, h2, _⟩ : tmValidateHead d.syms d.tapeSyms d.blank = .ok () ∧
+      firstErr d.trans d.validateRow = .ok () ∧ _ := by
+    simpa only [Res.andThen_eq_ok] using hok
+  show (tmValidateHead d.syms d.tapeSyms d.blank).andThen
+    ((firstErr (ainsert x row d.trans) d.validateRow).andThen _) = _
+  rw [h1, Res.ok_andThen, ainsert_of_not_mem x row d.trans hxk, firstErr_append_singleton, h2,
+    Res.ok_andThen]
+  simp [DTM.validateRow, guardE, Res.andThen, hx]
+
+theorem C19_ntm_corrupt_row_key (d : NTM σ γ) (wf : d.WF) (x : σ) (hx : x ∉ d.states)
+    (row : List (γ × List (TMResult σ γ))) :
+    (NTM.setRow d x row).validate = .error (.lib .invalidStateError) := by
+  have hxk : x ∉ akeys d.trans := by
+    intro h
+    obtain ⟨kv, hkv, rfl⟩ := List.mem_map.mp h
+    exact hx (wf.keysOk kv hkv)
+  have hok := (NTM.validate_eq_ok d).mpr wf
+  unfold NTM.validate at hok
+  obtain ⟨h1, h2, _⟩ : tmValidateHead d.syms d.tapeSyms d.blank = .ok () ∧
+      firstErr d.trans d.validateRow = .ok () ∧ _ := by
+    simpa only [Res.andThen_eq_ok] using hok
+  show (tmValidateHead d.syms d.tapeSyms d.blank).andThen
+    ((firstErr (ainsert x row d.trans) d.validateRow).andThen _) = _
+  rw [h1, Res.ok_andThen, ainsert_of_not_mem x row d.trans hxk, firstErr_append_singleton, h2,
+    Res.ok_andThen]
+  simp [NTM.validateRow, guardE, Res.andThen, hx]
+
+theorem C19_mntm_corrupt_row_key (d : MNTM σ γ) (wf : d.WF) (x : σ) (hx : x ∉ d.states)
+    (row : List (List γ × List (σ × List (γ × String)))) :
+    (MNTM.setRow d x row).validate = .error (.lib .invalidStateError) := by
+  have hxk : x ∉ akeys d.trans := by
+    intro h
+    obtain ⟨kv, hkv, rfl⟩ := List.mem_map.mp h
+    exact hx (wf.keysOk kv hkv)
+  have hok := (MNTM.validate_eq_ok d).mpr wf
+  unfold MNTM.validate at hok
+  obtain ⟨h1, h2, _⟩ : tmValidateHead d.syms d.tapeSyms d.blank = .ok () ∧
+      firstErr d.trans d.validateRow = .ok () ∧ _ := by
+    simpa only [Res.andThen_eq_ok] using hok
+  show (tmValidateHead d.syms d.tapeSyms d.blank).andThen
+    ((firstErr (ainsert x row d.trans) d.validateRow).andThen _) = _
+  rw [h1, Res.ok_andThen, ainsert_of_not_mem x row d.trans hxk, firstErr_append_singleton, h2,
+    Res.ok_andThen]
+  simp [MNTM.validateRow, guardE, Res.andThen, hx]
+
+/-- DTM / **initial state without a row**: in a valid DTM with more than one state,
+`del transitions[initial_state]` → `MissingStateError` (`_validate_initial_state_transitions`; with
+a single state the code does not ask for the row). -/
+theorem C19_dtm_corrupt_initial_row (d : DTM σ γ) (wf : d.WF) (hlen : 1 < d.states.length) :
+    (DTM.dropRow d d.init).validate = .error (.lib .missingStateError) := by
+  have hno := (DTM.wf_iff d).mp wf
+  have hsub : ∀ kv' ∈ (DTM.dropRow d d.init).trans, kv' ∈ d.trans :=
+    fun kv' h => (mem_adelete d.init d.trans kv' h).1
+  refine DTM.rules_correct.corrupt_raises _ .initialNoRow
+    ⟨not_mem_akeys_adelete d.init d.trans, hlen⟩ ?_
+  intro r' hv'
+  cases r'
+  case inputNotProperSubset => exact absurd hv' (hno .inputNotProperSubset)
+  case badBlank => exact absurd hv' (hno .badBlank)
+  case unknownTransitionState =>
+    obtain ⟨kv', hkv', h⟩ := hv'; exact (hno .unknownTransitionState ⟨kv', hsub kv' hkv', h⟩).elim
+  case badReadSymbol =>
+    obtain ⟨kv', hkv', h⟩ := hv'; exact (hno .badReadSymbol ⟨kv', hsub kv' hkv', h⟩).elim
+  case unknownResultState =>
+    obtain ⟨kv', hkv', h⟩ := hv'; exact (hno .unknownResultState ⟨kv', hsub kv' hkv', h⟩).elim
+  case badWriteSymbol =>
+    obtain ⟨kv', hkv', h⟩ := hv'; exact (hno .badWriteSymbol ⟨kv', hsub kv' hkv', h⟩).elim
+  case badDirection =>
+    obtain ⟨kv', hkv', h⟩ := hv'; exact (hno .badDirection ⟨kv', hsub kv' hkv', h⟩).elim
+  case badInitial => exact absurd hv' (hno .badInitial)
+  all_goals first | exact Or.inl rfl | (right; rw [DTM.rules_stage]; decide)
+
+theorem C19_ntm_corrupt_initial_row (d : NTM σ γ) (wf : d.WF) (hlen : 1 < d.states.length) :
+    (NTM.dropRow d d.init).validate = .error (.lib .missingStateError) := by
+  have hno := (NTM.wf_iff d).mp wf
+  have hsub : ∀ kv' ∈ (NTM.dropRow d d.init).trans, kv' ∈ d.trans :=
+    fun kv' h => (mem_adelete d.init d.trans kv' h).1
+  refine NTM.rules_correct.corrupt_raises _ .initialNoRow
+    ⟨not_mem_akeys_adelete d.init d.trans, hlen⟩ ?_
+  intro r' hv'
+  cases r'
+  case inputNotProperSubset => exact absurd hv' (hno .inputNotProperSubset)
+  case badBlank => exact absurd hv' (hno .badBlank)
+  case unknownTransitionState =>
+    obtain ⟨kv', hkv', h⟩ := hv'; exact (hno .unknownTransitionState ⟨kv', hsub kv' hkv', h⟩).elim
+  case badReadSymbol =>
+    obtain ⟨kv', hkv', h⟩ := hv'; exact (hno .badReadSymbol ⟨kv', hsub kv' hkv', h⟩).elim
+  case unknownResultState =>
+    obtain ⟨kv', hkv', h⟩ := hv'; exact (hno .unknownResultState ⟨kv', hsub kv' hkv', h⟩).elim
+  case badWriteSymbol =>
+    obtain ⟨kv', hkv', h⟩ := hv'; exact (hno .badWriteSymbol ⟨kv', hsub kv' hkv', h⟩).elim
+  case badDirection =>
+    obtain ⟨kv', hkv', h⟩ := hv'; exact (hno .badDirection ⟨kv', hsub kv' hkv', h⟩).elim
+  case badInitial => exact absurd hv' (hno .badInitial)
+  all_goals first | exact Or.inl rfl | (right; rw [NTM.rules_stage]; decide)
+
+theorem C19_mntm_corrupt_initial_row (d : MNTM σ γ) (wf : d.WF) (hlen : 1 < d.states.length) :
+    (MNTM.dropRow d d.init).validate = .error (.lib .missingStateError) := by
+  have hno := (MNTM.wf_iff d).mp wf
+  have hsub : ∀ kv' ∈ (MNTM.dropRow d d.init).trans, kv' ∈ d.trans :=
+    fun kv' h => (mem_adelete d.init d.trans kv' h).1
+  refine MNTM.rules_correct.corrupt_raises _ .initialNoRow
+    ⟨not_mem_akeys_adelete d.init d.trans, hlen⟩ ?_
+  intro r' hv'
+  cases r'
+  case inputNotProperSubset => exact absurd hv' (hno .inputNotProperSubset)
+  case badBlank => exact absurd hv' (hno .badBlank)
+  case unknownTransitionState =>
+    obtain ⟨kv', hkv', h⟩ := hv'; exact (hno .unknownTransitionState ⟨kv', hsub kv' hkv', h⟩).elim
+  case badReadSymbol =>
+    obtain ⟨kv', hkv', h⟩ := hv'; exact (hno .badReadSymbol ⟨kv', hsub kv' hkv', h⟩).elim
+  case unknownResultState =>
+    obtain ⟨kv', hkv', h⟩ := hv'; exact (hno .unknownResultState ⟨kv', hsub kv' hkv', h⟩).elim
+  case badWriteSymbol =>
+    obtain ⟨kv', hkv', h⟩ := hv'; exact (hno .badWriteSymbol ⟨kv', hsub kv' hkv', h⟩).elim
+  case badDirection =>
+    obtain ⟨kv', hkv', h⟩ := hv'; exact (hno .badDirection ⟨kv', hsub kv' hkv', h⟩).elim
+  case badInitial => exact absurd hv' (hno .badInitial)
+  all_goals first | exact Or.inl rfl | (right; rw [MNTM.rules_stage]; decide)
+
+example : ({ exDTM with syms := [0, 5] } : DTM Nat Nat).validate = .error (.lib .missingSymbolError) := by decide
+example : ({ exDTM with syms := exDTM.tapeSyms } : DTM Nat Nat).validate = .error (.lib .missingSymbolError) := by
+  decide
+example : ({ exNTM with syms := exNTM.tapeSyms } : NTM Nat Nat).validate = .error (.lib .missingSymbolError) := by
+  decide
+example : ({ exMNTM with syms := [5, 0] } : MNTM Nat Nat).validate = .error (.lib .missingSymbolError) := by decide
+/-- a row keyed by the non-state 7, itself full of defects: the key is reported -/
+example : (DTM.setRow exDTM 7 [(5, (8, 5, "X"))]).validate = .error (.lib .invalidStateError) := by decide
+example : (NTM.setRow exNTM 7 [(5, [(8, 5, "X")])]).validate = .error (.lib .invalidStateError) := by decide
+example : (MNTM.setRow exMNTM 7 [([5], [(8, [(5, "X")])])]).validate = .error (.lib .invalidStateError) := by
+  decide
+example : (DTM.dropRow exDTM 0).validate = .error (.lib .missingStateError) := by decide
+example : (NTM.dropRow exNTM 0).validate = .error (.lib .missingStateError) := by decide
+example : (MNTM.dropRow exMNTM 0).validate = .error (.lib .missingStateError) := by decide
+/-- with one state the row of the initial state is not asked for -/
+def exDTM1 : DTM Nat Nat :=
+  { states := [0], syms := [0], tapeSyms := [0, 9], trans := [], init := 0, blank := 9, finals := [] }
+
+example : exDTM1.validate = .ok () := by decide
+
+/-! ## GNFA: the shape rules -/
+
+/-- GNFA / **initial = final** (the final state set to the initial one) → `InvalidStateError`, for
+every definition: only the two membership tests, of the same class, come before it. -/
+theorem C19_gnfa_corrupt_initial_equals_final (g : GNFA σ α) :
+    ({ g with final := g.init } : GNFA σ α).validate = .error (.lib .invalidStateError) := by
+  refine GNFA.rules_correct.corrupt_raises _ .initialEqualsFinal rfl ?_
+  intro r' _
+  cases r' <;> first | exact Or.inl rfl | (right; rw [GNFA.rules_stage]; decide)
+
+/-- GNFA / initial = final (the initial state set to the final one) → `InvalidStateError`. -/
+theorem C19_gnfa_corrupt_initial_equals_final' (g : GNFA σ α) :
+    ({ g with init := g.final } : GNFA σ α).validate = .error (.lib .invalidStateError) := by
+  refine GNFA.rules_correct.corrupt_raises _ .initialEqualsFinal rfl ?_
+  intro r' _
+  cases r' <;> first | exact Or.inl rfl | (right; rw [GNFA.rules_stage]; decide)
+
+/-- GNFA / **missing row**: in a valid GNFA, `del transitions[q]` for a non-final state `q` →
+`MissingStateError` (the row test comes before the rows are looked at). -/
+theorem C19_gnfa_corrupt_missing_row (g : GNFA σ α) (wf : g.WF) (q : σ) (hq : q ∈ g.states)
+    (hqf : q ≠ g.final) :
+    (GNFA.dropRow g q).validate = .error (.lib .missingStateError) := by
+  have hno := (GNFA.wf_iff g).mp wf
+  refine GNFA.rules_correct.corrupt_raises _ .missingRow
+    ⟨q, hq, hqf, not_mem_akeys_adelete q g.trans⟩ ?_
+  intro r' hv'
+  cases r'
+  case badInitial => exact absurd hv' (hno .badInitial)
+  case badFinal => exact absurd hv' (hno .badFinal)
+  case initialEqualsFinal => exact absurd hv' (hno .initialEqualsFinal)
+  all_goals first | exact Or.inl rfl | (right; rw [GNFA.rules_stage]; decide)
+
+/-- `paths.get(init)` after `del paths[t]`, `t ≠ init`. -/
+private theorem gnfa_entersInit_adelete (g : GNFA σ α) (t : σ) (paths : List (σ × Option (GLabel α)))
+    (ht : t ≠ g.init) : g.entersInit (adelete t paths) = g.entersInit paths := by
+  unfold GNFA.entersInit
+  rw [alookup_adelete_ne t g.init paths (fun h => ht h.symm)]
+
+/-- GNFA / **missing entry**: in a valid GNFA, `del transitions[q][t]` (`q` a non-final state with a
+row, `t` a state other than the initial one) → `MissingStateError`. -/
+theorem C19_gnfa_corrupt_missing_entry (g : GNFA σ α) (wf : g.WF) (kv : σ × List (σ × Option (GLabel α)))
+    (hkv : kv ∈ g.trans) (hq : kv.1 ≠ g.final) (t : σ) (ht : t ∈ g.states) (hti : t ≠ g.init) :
+    (GNFA.dropEntry g kv.1 t).validate = .error (.lib .missingStateError) := by
+  have hno := (GNFA.wf_iff g).mp wf
+  have hshape : ∀ kv' ∈ (GNFA.dropEntry g kv.1 t).trans, ∃ kv0 ∈ g.trans, kv'.1 = kv0.1 ∧
+      (∀ e ∈ kv'.2, e ∈ kv0.2) ∧ (kv' = kv0 ∨ (kv0.1 = kv.1 ∧ kv'.2 = adelete t kv0.2)) := by
+    intro kv' hkv'
+    obtain ⟨kv0, hkv0, h1, h2⟩ := GNFA.dropEntry_rows g kv.1 t kv' hkv'
+    refine ⟨kv0, hkv0, h1, ?_, h2⟩
+    rcases h2 with rfl | ⟨_, h2⟩
+    · exact fun e he => he
+    · rw [h2]; exact fun e he => (mem_adelete t kv0.2 e he).1
+  have hv : GNFA.rules.Violates (GNFA.dropEntry g kv.1 t) .missingEntry :=
+    ⟨(kv.1, adelete t kv.2), editRow_mem kv.1 (adelete t) g.trans kv hkv rfl, hq, t, ht,
+      not_mem_akeys_adelete t kv.2, hti⟩
+  refine GNFA.rules_correct.corrupt_raises _ .missingEntry hv ?_
+  intro r' hv'
+  cases r'
+  case badInitial => exact absurd hv' (hno .badInitial)
+  case badFinal => exact absurd hv' (hno .badFinal)
+  case initialEqualsFinal => exact absurd hv' (hno .initialEqualsFinal)
+  case missingRow =>
+    exfalso
+    obtain ⟨x, hx, hxf, hxk⟩ := hv'
+    rw [show akeys (GNFA.dropEntry g kv.1 t).trans = akeys g.trans from editRow_keys _ _ _] at hxk
+    rcases wf.rows x hx with h | h
+    · exact hxf h
+    · exact hxk h
+  case malformedLabel =>
+    exfalso
+    obtain ⟨kv', hkv', l, hl, hm⟩ := hv'
+    obtain ⟨kv0, hkv0, _, hsub, _⟩ := hshape kv' hkv'
+    obtain ⟨en, hen, hl2⟩ := List.mem_map.mp hl
+    exact hno .malformedLabel ⟨kv0, hkv0, l, List.mem_map.mpr ⟨en, hsub en hen, hl2⟩, hm⟩
+  case labelLexerError =>
+    exfalso
+    obtain ⟨kv', hkv', l, hl, hm⟩ := hv'
+    obtain ⟨kv0, hkv0, _, hsub, _⟩ := hshape kv' hkv'
+    obtain ⟨en, hen, hl2⟩ := List.mem_map.mp hl
+    exact hno .labelLexerError ⟨kv0, hkv0, l, List.mem_map.mpr ⟨en, hsub en hen, hl2⟩, hm⟩
+  case finalHasTransitions =>
+    exfalso
+    obtain ⟨kv', hkv', hfin, hne⟩ := hv'
+    obtain ⟨kv0, hkv0, h1, _, h2⟩ := hshape kv' hkv'
+    rcases h2 with rfl | ⟨hk, _⟩
+    · exact hne (wf.finalRowEmpty _ hkv0 hfin)
+    · exact hq (by rw [← hk, ← h1]; exact hfin)
+  case unknownEndState =>
+    exfalso
+    obtain ⟨kv', hkv', x, hx, hnx⟩ := hv'
+    obtain ⟨kv0, hkv0, _, hsub, _⟩ := hshape kv' hkv'
+    obtain ⟨en, hen, rfl⟩ := List.mem_map.mp hx
+    exact hnx (wf.tgtOk kv0 hkv0 en.1 (List.mem_map.mpr ⟨en, hsub en hen, rfl⟩))
+  case transitionIntoInitial =>
+    exfalso
+    obtain ⟨kv', hkv', hen⟩ := hv'
+    obtain ⟨kv0, hkv0, _, _, h2⟩ := hshape kv' hkv'
+    have hen : g.entersInit kv'.2 = true := hen
+    rcases h2 with rfl | ⟨_, h2⟩
+    · rw [wf.noEnter _ hkv0] at hen; cases hen
+    · rw [h2, gnfa_entersInit_adelete g t kv0.2 hti, wf.noEnter kv0 hkv0] at hen; cases hen
+  all_goals first | exact Or.inl rfl | (right; rw [GNFA.rules_stage]; decide)
+
+/-- GNFA / **final-state row present**: in a valid GNFA, `transitions[final_state] = row` with a
+non-empty row whose labels are well formed (`None`, or accepted regular expressions over the input
+symbols — a malformed label in it would be reported first, as `InvalidRegexError`) →
+`InvalidStateError`. -/
+theorem C19_gnfa_corrupt_final_row (g : GNFA σ α) (wf : g.WF) (row : List (σ × Option (GLabel α)))
+    (hne : row ≠ []) (hlab : ∀ l ∈ avals row, g.LabelOk l) :
+    (GNFA.setRow g g.final row).validate = .error (.lib .invalidStateError) := by
+  have hno := (GNFA.wf_iff g).mp wf
+  have hrows : ∀ kv' ∈ (GNFA.setRow g g.final row).trans, kv' = (g.final, row) ∨ kv' ∈ g.trans :=
+    fun kv' h => mem_ainsert_row g.final row g.trans kv' h
+  have hv : GNFA.rules.Violates (GNFA.setRow g g.final row) .finalHasTransitions :=
+    ⟨(g.final, row), ainsert_mem_self g.final row g.trans, rfl, hne⟩
+  refine GNFA.rules_correct.corrupt_raises _ .finalHasTransitions hv ?_
+  intro r' hv'
+  cases r'
+  case missingRow =>
+    exfalso
+    obtain ⟨x, hx, hxf, hxk⟩ := hv'
+    rcases wf.rows x hx with h | h
+    · exact hxf h
+    · exact hxk (akeys_ainsert_sup g.final row g.trans x h)
+  case malformedLabel =>
+    exfalso
+    obtain ⟨kv', hkv', l, hl, hm⟩ := hv'
+    rcases hrows kv' hkv' with rfl | h
+    · exact ((GNFA.labelOk_iff g l).mp (hlab (some l) hl)).1 hm
+    · exact hno .malformedLabel ⟨kv', h, l, hl, hm⟩
+  case labelLexerError =>
+    exfalso
+    obtain ⟨kv', hkv', l, hl, hm⟩ := hv'
+    rcases hrows kv' hkv' with rfl | h
+    · exact ((GNFA.labelOk_iff g l).mp (hlab (some l) hl)).2 hm
+    · exact hno .labelLexerError ⟨kv', h, l, hl, hm⟩
+  case missingEntry =>
+    exfalso
+    obtain ⟨kv', hkv', hnf, rest⟩ := hv'
+    rcases hrows kv' hkv' with rfl | h
+    · exact hnf rfl
+    · exact hno .missingEntry ⟨kv', h, hnf, rest⟩
+  all_goals first | exact Or.inl rfl | (right; rw [GNFA.rules_stage]; decide)
+
+/-- GNFA / **transition into the initial state**: in a valid GNFA, `transitions[q][initial_state] =
+label` with a well-formed label (a malformed one is reported first, as `InvalidRegexError`), `q` any
+state with a row → `InvalidStateError`. -/
+theorem C19_gnfa_corrupt_into_initial (g : GNFA σ α) (wf : g.WF) (kv : σ × List (σ × Option (GLabel α)))
+    (hkv : kv ∈ g.trans) (l : GLabel α) (hl : g.LabelOk (some l)) :
+    (GNFA.setEntry g kv.1 g.init (some l)).validate = .error (.lib .invalidStateError) := by
+  have hno := (GNFA.wf_iff g).mp wf
+  have hshape : ∀ kv' ∈ (GNFA.setEntry g kv.1 g.init (some l)).trans, ∃ kv0 ∈ g.trans, kv'.1 = kv0.1 ∧
+      (∀ e ∈ kv'.2, e = (g.init, some l) ∨ e ∈ kv0.2) ∧ (∀ x ∈ akeys kv0.2, x ∈ akeys kv'.2) := by
+    intro kv' hkv'
+    obtain ⟨kv0, hkv0, h1, h2⟩ := GNFA.setEntry_rows g kv.1 g.init (some l) kv' hkv'
+    refine ⟨kv0, hkv0, h1, ?_, ?_⟩
+    · rcases h2 with rfl | ⟨_, h2⟩
+      · exact fun e he => Or.inr he
+      · rw [h2]; exact fun e he => mem_ainsert g.init (some l) kv0.2 e he
+    · rcases h2 with rfl | ⟨_, h2⟩
+      · exact fun x hx => hx
+      · rw [h2]; exact fun x hx => akeys_ainsert_sup g.init (some l) kv0.2 x hx
+  have hv : GNFA.rules.Violates (GNFA.setEntry g kv.1 g.init (some l)) .transitionIntoInitial := by
+    refine ⟨(kv.1, ainsert g.init (some l) kv.2),
+      editRow_mem kv.1 (ainsert g.init (some l)) g.trans kv hkv rfl, ?_⟩
+    show g.entersInit (ainsert g.init (some l) kv.2) = true
+    unfold GNFA.entersInit
+    rw [va_alookup_ainsert_self]
+  refine GNFA.rules_correct.corrupt_raises _ .transitionIntoInitial hv ?_
+  intro r' hv'
+  cases r'
+  case missingRow =>
+    exfalso
+    obtain ⟨x, hx, hxf, hxk⟩ := hv'
+    rw [show akeys (GNFA.setEntry g kv.1 g.init (some l)).trans = akeys g.trans from
+      editRow_keys _ _ _] at hxk
+    rcases wf.rows x hx with h | h
+    · exact hxf h
+    · exact hxk h
+  case malformedLabel =>
+    exfalso
+    obtain ⟨kv', hkv', l', hl', hm⟩ := hv'
+    obtain ⟨kv0, hkv0, _, hent, _⟩ := hshape kv' hkv'
+    obtain ⟨en, hen, hl2⟩ := List.mem_map.mp hl'
+    rcases hent en hen with rfl | hen0
+    · cases hl2; exact ((GNFA.labelOk_iff g l).mp hl).1 hm
+    · exact hno .malformedLabel ⟨kv0, hkv0, l', List.mem_map.mpr ⟨en, hen0, hl2⟩, hm⟩
+  case labelLexerError =>
+    exfalso
+    obtain ⟨kv', hkv', l', hl', hm⟩ := hv'
+    obtain ⟨kv0, hkv0, _, hent, _⟩ := hshape kv' hkv'
+    obtain ⟨en, hen, hl2⟩ := List.mem_map.mp hl'
+    rcases hent en hen with rfl | hen0
+    · cases hl2; exact ((GNFA.labelOk_iff g l).mp hl).2 hm
+    · exact hno .labelLexerError ⟨kv0, hkv0, l', List.mem_map.mpr ⟨en, hen0, hl2⟩, hm⟩
+  case missingEntry =>
+    exfalso
+    obtain ⟨kv', hkv', hnf, x, hx, hnx, hxi⟩ := hv'
+    obtain ⟨kv0, hkv0, h1, _, hsup⟩ := hshape kv' hkv'
+    rcases wf.complete kv0 hkv0 (h1 ▸ hnf) x hx with h | h
+    · exact hnx (hsup x h)
+    · exact hxi h
+  all_goals first | exact Or.inl rfl | (right; rw [GNFA.rules_stage]; decide)
+
+example : ({ exGNFA with final := exGNFA.init } : GNFA Nat Nat).validate = .error (.lib .invalidStateError) := by
+  decide
+example : ({ exGNFA with init := exGNFA.final } : GNFA Nat Nat).validate = .error (.lib .invalidStateError) := by
+  decide
+example : (GNFA.dropRow exGNFA 1).validate = .error (.lib .missingStateError) := by decide
+example : (GNFA.dropEntry exGNFA 1 2).validate = .error (.lib .missingStateError) := by decide
+example : (GNFA.dropEntry exGNFA 0 1).validate = .error (.lib .missingStateError) := by decide
+example : (GNFA.setRow exGNFA 2 [(1, none)]).validate = .error (.lib .invalidStateError) := by decide
+example : (GNFA.setRow exGNFA 2 [(1, some ⟨[.sym 0], .valid⟩), (7, none)]).validate =
+    .error (.lib .invalidStateError) := by decide
+/-- an empty row for the final state is accepted: `row ≠ []` is needed -/
+example : (GNFA.setRow exGNFA 2 []).validate = .ok () := by decide
+example : (GNFA.setEntry exGNFA 1 0 (some ⟨[.sym 0], .valid⟩)).validate = .error (.lib .invalidStateError) := by
+  decide
+/-- a `None` entry into the initial state is accepted: the label must be a string -/
+example : (GNFA.setEntry exGNFA 1 0 none).validate = .ok () := by decide
+
 end AV.Props.C19
